@@ -33,13 +33,13 @@ type c17Case struct {
 func c17Source(k int, shape int, asPackage bool) string {
 	var sb strings.Builder
 	if asPackage {
-		sb.WriteString("package app\n\nimport \"fmt\"\n\n")
+		sb.WriteString("package app\n\nimport (\n\t\"errors\"\n\t\"fmt\"\n)\n\n")
 	} else {
-		sb.WriteString("import \"fmt\"\n\n")
+		sb.WriteString("import (\n\t\"errors\"\n\t\"fmt\"\n)\n\n")
 	}
-	fmt.Fprintf(&sb, "type T struct {\n\tN int\n\tLabel string\n}\n\ntype H struct {\n\tF func() string\n\tG func(int) string\n}\n\n")
+	fmt.Fprintf(&sb, "type T struct {\n\tN int\n\tLabel string\n}\n\ntype H struct {\n\tF func() string\n\tG func(int) string\n\tP func(int) string\n}\n\ntype Namer interface {\n\tM() string\n}\n\n")
 	// state
-	sb.WriteString("var keep int\nvar loads int\nvar saved func() string\nvar savedG func(int) string\nvar obj *T\nvar bound func() string\nvar holder *H\nvar list []func() string\n")
+	sb.WriteString("var keep int\nvar loads int\nvar saved func() string\nvar savedG func(int) string\nvar obj *T\nvar bound func() string\nvar boundP func(int) string\nvar holder *H\nvar list []func() string\nvar anyKeep any\nvar namer Namer\nvar lastErr error\n")
 	fmt.Fprintf(&sb, "var reset = %d\nvar resetS = \"init-v%d\"\n\n", 100*k, k)
 	// helper whose arity changes between versions (used consistently inside one version)
 	if (shape+k)%2 == 0 {
@@ -52,6 +52,7 @@ func c17Source(k int, shape int, asPackage bool) string {
 	fmt.Fprintf(&sb, "func f1() string {\n\treturn \"f1@v%d\"\n}\n\n", k)
 	fmt.Fprintf(&sb, "func g(n int) string {\n\treturn \"g@v%d:\" + fmt.Sprint(n*%d)\n}\n\n", k, k)
 	fmt.Fprintf(&sb, "func (t *T) M() string {\n\treturn \"M@v%d:\" + fmt.Sprint(t.N) + t.Label\n}\n\n", k)
+	fmt.Fprintf(&sb, "func (t *T) P(a int) string {\n\treturn \"P@v%d:\" + fmt.Sprint(t.N+a)\n}\n\n", k)
 	if k >= 2 && shape%3 != 0 {
 		// a method added in a later version is found on instances created earlier
 		fmt.Fprintf(&sb, "func (t *T) Extra() string {\n\treturn \"Extra@v%d:\" + fmt.Sprint(t.N)\n}\n\n", k)
@@ -63,9 +64,9 @@ func c17Source(k int, shape int, asPackage bool) string {
 		sb.WriteString("const HasExtra = false\n\n")
 	}
 	sb.WriteString("func init() {\n\tloads++\n}\n\n")
-	sb.WriteString("func Tick() {\n\tkeep++\n\treset++\n\tresetS += \"+\"\n\tif obj != nil {\n\t\tobj.N += 10\n\t}\n}\n\n")
-	sb.WriteString("func Capture() {\n\tsaved = f0\n\tsavedG = g\n\tobj = &T{N: keep, Label: \"L\"}\n\tbound = obj.M\n\tholder = &H{F: f1, G: g}\n\tlist = append(list, f1)\n}\n\n")
-	sb.WriteString("func Report() string {\n\ts := f0() + \" \" + f1() + \" \" + g(2)\n\tif saved != nil {\n\t\ts += \" saved=\" + saved() + \" savedG=\" + savedG(3) + \" bound=\" + bound() + \" holder=\" + holder.F() + holder.G(4) + \" obj=\" + obj.M()\n\t\tfor _, f := range list {\n\t\t\ts += \" l=\" + f()\n\t\t}\n\t} else {\n\t\ts += \" saved=nil\"\n\t}\n\tif obj != nil && HasExtra {\n\t\ts += \" extra=\" + obj.Extra()\n\t}\n\treturn s + \" keep=\" + fmt.Sprint(keep) + \" reset=\" + fmt.Sprint(reset) + \" resetS=\" + resetS + \" loads=\" + fmt.Sprint(loads)\n}\n")
+	sb.WriteString("func Tick() {\n\tkeep++\n\treset++\n\tresetS += \"+\"\n\tanyKeep = keep\n\tif obj != nil {\n\t\tobj.N += 10\n\t}\n}\n\n")
+	sb.WriteString("func Capture() {\n\tsaved = f0\n\tsavedG = g\n\tobj = &T{N: keep, Label: \"L\"}\n\tbound = obj.M\n\tboundP = obj.P\n\tholder = &H{F: f1, G: g, P: obj.P}\n\tlist = append(list, f1)\n\tnamer = obj\n\tlastErr = errors.New(\"e\" + fmt.Sprint(keep))\n}\n\n")
+	sb.WriteString("func Report() string {\n\ts := f0() + \" \" + f1() + \" \" + g(2)\n\tif saved != nil {\n\t\ts += \" saved=\" + saved() + \" savedG=\" + savedG(3) + \" bound=\" + bound() + \" holder=\" + holder.F() + holder.G(4) + \" obj=\" + obj.M() + \" boundP=\" + boundP(5) + \" holderP=\" + holder.P(6) + \" namer=\" + namer.M() + \" err=\" + lastErr.Error()\n\t\tfor _, f := range list {\n\t\t\ts += \" l=\" + f()\n\t\t}\n\t} else {\n\t\ts += \" saved=nil\"\n\t}\n\tif obj != nil && HasExtra {\n\t\ts += \" extra=\" + obj.Extra()\n\t}\n\tif anyKeep != nil {\n\t\ts += \" any=\" + fmt.Sprint(anyKeep)\n\t} else {\n\t\ts += \" any=nil\"\n\t}\n\treturn s + \" keep=\" + fmt.Sprint(keep) + \" reset=\" + fmt.Sprint(reset) + \" resetS=\" + resetS + \" loads=\" + fmt.Sprint(loads)\n}\n")
 	return sb.String()
 }
 
@@ -79,6 +80,7 @@ type c17Model struct {
 	captured  bool
 	objN      int
 	listLen   int
+	errN      int
 	evalLoads int
 }
 
@@ -94,7 +96,8 @@ func (m *c17Model) report() string {
 	s := f0 + " " + f1 + " " + g(2)
 	if m.captured {
 		M := fmt.Sprintf("M@v%d:%dL", k, m.objN)
-		s += " saved=" + f0 + " savedG=" + g(3) + " bound=" + M + " holder=" + f1 + g(4) + " obj=" + M
+		P := func(a int) string { return fmt.Sprintf("P@v%d:%d", k, m.objN+a) }
+		s += " saved=" + f0 + " savedG=" + g(3) + " bound=" + M + " holder=" + f1 + g(4) + " obj=" + M + " boundP=" + P(5) + " holderP=" + P(6) + " namer=" + M + " err=e" + fmt.Sprint(m.errN)
 		for i := 0; i < m.listLen; i++ {
 			s += " l=" + f1
 		}
@@ -103,6 +106,11 @@ func (m *c17Model) report() string {
 	}
 	if m.captured && k >= 2 && m.shape%3 != 0 {
 		s += fmt.Sprintf(" extra=Extra@v%d:%d", k, m.objN)
+	}
+	if m.keep > 0 {
+		s += fmt.Sprintf(" any=%d", m.keep)
+	} else {
+		s += " any=nil"
 	}
 	return s + fmt.Sprintf(" keep=%d reset=%d resetS=%s loads=%d", m.keep, m.reset, m.resetS, m.loads)
 }
@@ -179,6 +187,7 @@ func c17Run(c c17Case) (what string, trace []string) {
 				return fmt.Sprintf("step %d: Capture failed: %s%s", si, core.ErrFirstLine(o.Err), o.Panic), trace
 			}
 			model.captured = true
+			model.errN = model.keep
 			model.objN = model.keep
 			model.listLen++
 			trace = append(trace, "capture")
